@@ -205,6 +205,8 @@ func ClientCheck(sc sim.CScenario, h *sim.CHistory) []Problem {
 				c := "injected"
 				if e.Err == "EOF" {
 					c = "eof"
+				} else if strings.Contains(e.Err, "closed") {
+					c = "chanclosed"
 				}
 				stopCauses = append(stopCauses, c)
 				if stopSeq < 0 {
@@ -506,6 +508,8 @@ func ClientCheck(sc sim.CScenario, h *sim.CHistory) []Problem {
 			case "recvfault":
 				if e.Err == "EOF" {
 					cause = "eof"
+				} else if strings.Contains(e.Err, "closed") {
+					cause = "chanclosed"
 				} else if e.Err != "" {
 					cause = "injected"
 				}
